@@ -218,8 +218,8 @@ def families(tier, seed):
     for dname in (dirs[:4] if tier == 'quick' else dirs):
         fams.append(Family('line/dir:%s/same-set' % dname, fam_line, ('dir:' + dname, False), must_reach=('eq',)))
         fams.append(Family('plane/dir:%s/same-set' % dname, fam_plane, ('dir:' + dname, False), must_reach=('eq',)))
-    for sh, fr in ([('tri', 'axis'), ('quad', 'oblique'), ('penta', 'axis')] if tier == 'quick' else
-                   [(s, f) for s in ('tri', 'quad', 'penta', 'hexa') for f in ('axis', 'oblique', 'pyth3')]):
+    for sh, fr in ([('tri', 'axis'), ('quad', 'oblique'), ('penta', 'axis'), ('quad', 'yz45')] if tier == 'quick' else
+                   [(s, f) for s in ('tri', 'quad', 'penta', 'hexa') for f in ('axis', 'oblique', 'pyth3', 'yz45')]):
         fams.append(Family('polygon/%s@%s' % (sh, fr), fam_polygon, (sh, fr, tier, seed), must_reach=('ok',)))
     for sh, fr in ([('tetra', 'axis'), ('cube', 'axis')] if tier == 'quick' else
                    [(s, f) for s in ('tetra', 'cube', 'prism', 'pyramid') for f in ('axis', 'oblique')]):
